@@ -456,7 +456,7 @@ def run(ctx: Ctx) -> None:
 
     # ---- V8 printer dispatch / COMPLEX_TYPES ----------------------------------------------------
     ctx.rule("V8", "every keyword-introduced block rule of the grammar is written by the printer in that rule's shape (evaluated), is not counted for the alignment column, and COMPLEX_TYPES equals the END-terminated constructs", 10)
-    fmt = repo.func("pprint.PrettyPrinter._format")
+    fmt = repo.func(models.fmt_qual(repo))
     want = set(special)
     from .. import printer as _pr
 
